@@ -146,7 +146,7 @@ Lemma run_simple_sim sc m s t steps f : RM m s ->
 Proof.
   intro HR. unfold run_simple.
   destruct steps as [|[d|d|w hp] rest]; try (now apply park_sim).
-  destruct f as [[d|j|]| | |d|d| | |n|]; try (now apply park_sim); cbn [fst snd]; split; try reflexivity;
+  destruct f as [[d|j| |k]| | |d|d| | |n|]; try (now apply park_sim); cbn [fst snd]; split; try reflexivity;
     try (now apply RM_end); now apply RM_delete.
 Qed.
 
@@ -202,7 +202,7 @@ Proof.
     destruct (frame sc <? wdue (min_w x r)); cbn [fst snd]; auto.
   - destruct (pend sc) as [|x r]; cbn [fst snd]; auto.
     destruct (frame sc <? wdue (min_w x r)); cbn [fst snd]; auto.
-    set (sc1 := mkSched (remove_w (wseq (min_w x r)) (x :: r)) (paused sc) (frame sc) (clock sc) (sseq sc)).
+    set (sc1 := mkSched (remove_w (wseq (min_w x r)) (x :: r)) (paused sc) (frame sc) (clock sc) (sseq sc) (lvars sc)).
     destruct (run_thr_sim sc1 m s (wthr (min_w x r)) HR) as [E1 E2].
     destruct (m_run_thr sc1 m (wthr (min_w x r))) as [sa ha].
     destruct (s_run_thr sc1 s (wthr (min_w x r))) as [sb sb']. cbn [fst snd] in *. subst sb.
@@ -240,15 +240,21 @@ Theorem step_sim sc m s o : RM m s ->
   snd (m_step (sc, m) o) = snd (s_step (sc, s) o) /\
   RM (snd (fst (m_step (sc, m) o))) (snd (fst (s_step (sc, s) o))).
 Proof.
-  intro HR. unfold m_step, s_step. destruct o as [lbl np prog args|r|r|r|r|a b|a b|dt| |]; cbn [step_op].
+  intro HR. unfold m_step, s_step. destruct o as [lbl np pt prog args|r|r|r|r|a b|a b|dt| |]; cbn [step_op].
   - (* the host call *)
     destruct (RM_begin lbl m s HR) as [HR1 Et].
     destruct (m_begin lbl m) as [m1 t]. destruct (s_begin lbl s) as [s1 t']. cbn [fst snd] in *. subst t'.
     destruct lbl.
-    + set (l0 := match prog with l :: _ => l | [] => mkLevel [] [] FFall end).
-      destruct (run_st_sim (tl prog) sc m1 s1 t (lpre l0) (lpost l0) (resolve (bind np args) (lfin l0)) HR1) as [E1 E2].
-      destruct (m_run_st sc m1 t (lpre l0) (tl prog) (lpost l0) (resolve (bind np args) (lfin l0))) as [sa m2].
-      destruct (s_run_st sc s1 t (lpre l0) (tl prog) (lpost l0) (resolve (bind np args) (lfin l0))) as [sb s2].
+    + destruct (match pt with
+                | [] => (bind np args, bind np args, lvars sc)
+                | _ :: _ => let '(loc, lv) := prologue pt args [] (lvars sc) in
+                            (map (read_target loc lv) pt, map (fun j => lget Nat.eqb j loc) (seq 1 (max_loc pt)), lv)
+                end) as [[params locvals] lv].
+      set (sc0 := mkSched (pend sc) (paused sc) (frame sc) (clock sc) (sseq sc) lv).
+      set (l0 := match prog with l :: _ => l | [] => mkLevel [] [] FFall end).
+      destruct (run_st_sim (tl prog) sc0 m1 s1 t (lpre l0) (lpost l0) (resolve locvals (lfin l0)) HR1) as [E1 E2].
+      destruct (m_run_st sc0 m1 t (lpre l0) (tl prog) (lpost l0) (resolve locvals (lfin l0))) as [sa m2].
+      destruct (s_run_st sc0 s1 t (lpre l0) (tl prog) (lpost l0) (resolve locvals (lfin l0))) as [sb s2].
       cbn [fst snd] in *. subst sb.
       destruct (resume_sim (weight sa) sa (m_tail t m2) (s_noop t s2) (RM_tail t m2 s2 E2)) as (E3 & E4 & E5).
       destruct (m_resume (weight sa) sa (m_tail t m2)) as [[sc3 m3] ok3].
@@ -287,7 +293,7 @@ Proof.
       unfold rec_massign. destruct (a =? b); [reflexivity|]. destruct (slot_of a h), (slot_of b h); reflexivity. }
     split; [reflexivity|]. split; [now apply mk_obs_eq|exact H].
   - split; [reflexivity|]. split; [now apply mk_obs_eq|exact HR].
-  - set (sc1 := mkSched (pend sc) (paused sc) (clock sc) (clock sc) (sseq sc)).
+  - set (sc1 := mkSched (pend sc) (paused sc) (clock sc) (clock sc) (sseq sc) (lvars sc)).
     destruct (resume_sim (weight sc1) sc1 m s HR) as (E3 & E4 & E5).
     destruct (m_resume (weight sc1) sc1 m) as [[sc3 m3] ok3].
     destruct (s_resume (weight sc1) sc1 s) as [[sc3' s3] ok3'].
